@@ -168,7 +168,15 @@ func c37GenSeq(t *rapid.T, depth int, w *c37Out) {
 					// documented optimisation removes it), or differing at one end
 					alt := prev
 					last := alt[len(alt)-1]
-					switch rapid.IntRange(0, 3).Draw(t, "nearcopy") {
+					switch rapid.IntRange(0, 5).Draw(t, "nearcopy") {
+					case 4, 5:
+						// the previous alternative with one of its nested groups
+						// extended by one more alternative (added after an
+						// independently produced change went unnoticed: a
+						// de-duplication that treats a longer group as equal)
+						if i := strings.LastIndex(alt, "}"); i > 0 && alt[i-1] != '\\' {
+							alt = alt[:i] + "," + rapid.SampledFrom([]string{"c", "x", "zz", "*"}).Draw(t, "extend") + alt[i:]
+						}
 					case 1:
 						alt += rapid.SampledFrom([]string{"x", "y", "foo", "*"}).Draw(t, "append")
 					case 2:
